@@ -494,6 +494,48 @@ def r8_rows_owned_by_the_lexicon_being_added(ctx, res):
     r7_ownership(ctx, res)
 
 
+def key_domain(schema, table, col):
+    """the key a column holds: its own table's rowid, or the (table, column) its foreign key refers to; None for plain data"""
+    if col == 'rowid':
+        return (table, 'rowid')
+    c = schema.col(table, col) if table in schema.tables else None
+    if c is not None and c.pk and c.type == 'INTEGER':
+        return (table, 'rowid')
+    for fk in schema.fks:
+        if fk.table == table and fk.column == col:
+            return (fk.ref_table, fk.ref_column)
+    return None
+
+
+def key_domains_agree(ctx, res, prefix='keys', modules=None, floor=300):
+    """every comparison of two columns in the embedded SQL - `a.x = b.y` in ON / WHERE, `a.x IN (SELECT b.y ...)` - compares
+    keys of ONE table: a lexicon filter applied through a sub-select scopes nothing if the sub-select hands back the rowids
+    of a different table (ilis.rowid where synsets.rowid is expected: both are integers, SQLite compares them happily)."""
+    sc = ctx.schema
+    n = 0
+    for site in ctx.sites:
+        if modules is not None and site.func.module.short not in modules:
+            continue
+        for vi, v in enumerate(site.variants):
+            for (lt, lc), (rt, rc), i in v.stmt.key_comparisons(sc):
+                n += 1
+                dl, dr = key_domain(sc, lt, lc), key_domain(sc, rt, rc)
+                key = f'{prefix}:{site.func.key}:{lt}.{lc}~{rt}.{rc}'
+                res.inst(key, site.loc, f'{dl} ~ {dr}')
+                if dl != dr and (dl is not None or dr is not None):
+                    res.find(key, site.loc,
+                             f'{site.func.qualname} compares {lt}.{lc} (a key of {dl[0] if dl else "no table: plain data"}) with '
+                             f'{rt}.{rc} (a key of {dr[0] if dr else "no table: plain data"}): rowids of different tables are '
+                             f'matched by accident of numbering - the rows selected, and any lexicon scope applied through this '
+                             f'comparison, are arbitrary')
+    if n < floor:
+        raise AnalysisError(f'only {n} column comparisons found in the embedded SQL')
+
+
+def r9_key_domains_agree(ctx, res):
+    key_domains_agree(ctx, res)
+
+
 RULES = [
     ('C04-R1', r1_sql_scoping, 40),
     ('C04-R2', r2_callsite_provenance, 30),
@@ -503,4 +545,5 @@ RULES = [
     ('C04-R6', r6_scope_recomputed, 150),
     ('C04-R7', r7_wordnet_handed_on, 12),
     ('C04-R8', r8_rows_owned_by_the_lexicon_being_added, 12),
+    ('C04-R9', r9_key_domains_agree, 300),
 ]
